@@ -50,7 +50,9 @@ Judge(s, blk, e) ==
       [] e.op = "next" ->
             LET stream == StreamOf(blk, s.cur)
                 a == ReadAt(stream, s.rpos)
-                adv == [s EXCEPT !.rpos = a.next, !.ryield = IF e.out = "rec" THEN s.ryield + 1 ELSE s.ryield]
+                \* ryield counts the records CONSUMED: delivered, or refused at message level by a reader whose caller catches the
+                \* error and keeps reading - the next error carries its own position in the file (round 10)
+                adv == [s EXCEPT !.rpos = a.next, !.ryield = IF e.out = "rec" \/ (a.k = "record" /\ e.out = "liberr") THEN s.ryield + 1 ELSE s.ryield]
                 locv == IF e.out = "liberr" /\ Tr.loc
                         THEN (IF e.n # s.ryield + 1 THEN "error-record-number"
                               ELSE IF a.k = "record" /\ e.bytes # a.pfx \o a.rec THEN "error-context-not-the-raw-record"
